@@ -32,7 +32,7 @@ func getBalances(w http.ResponseWriter, r *http.Request) {
 
 	cursor, err := l.ListAccounts(r.Context(), rq)
 	if err != nil {
-		common.HandleCommonErrors(w, r, err)
+		common.HandleCommonPaginationErrors(w, r, err)
 		return
 	}
 
